@@ -1,9 +1,12 @@
-(** Proofs about [PV.TermList]:
+(** Proofs about [PV.TermList] (add_term = the retry loop of TermList.h):
+    0. for ANY comparator: a refused insert() leaves the set as  b ++ blocker :: a;  the bound of the model's
+       for(;;) (the number of stored terms) is never exhausted ([add_term_fuel_suffices]);
     A. the error identity of add_term / add_terms over any commutative ring of values
-       (what the evaluated sum gains or loses per event);
+       (what the evaluated sum gains or loses per event, for merge chains of any length);
     B. under "compare is a strict partial order" (irreflexive, transitive -- true of
-       [p2 - p1 >= tol] with tol > 0): the invariant [sorted_sep] is preserved, insert() is never
-       refused, erase() removes exactly the found term;  hence [termlist_eval_preserved];
+       [p2 - p1 >= tol] with tol > 0): the invariant [sorted_sep] is preserved, the chain of merges has at most ONE
+       step (the reduced term keeps the pole of the erased one and fits where that one was), no term is lost
+       other than by the negligibility test;  hence [termlist_eval_preserved];
        under "compare is total" (tol = 0, the exact form): nothing is ever merged or dropped;
     C. the justification of the list model: a search-tree descent by a predicate that is monotone
        along the in-order sequence ends where the linear scan ends;
@@ -11,6 +14,75 @@
 Require Import Bool List Arith Lia Ring Ring_theory.
 From PV Require Import TermList.
 Import ListNotations.
+
+(** * 0. any comparator *)
+Section Basic.
+Variables P C : Type.
+Variable comp : P -> P -> bool.
+Variable negl : C -> nat -> bool.
+Variable cadd : C -> C -> C.
+Notation scan := (scan P C).
+
+Lemma scan_app_eq pred (l : list (term P C)) : fst (scan pred l) ++ snd (scan pred l) = l.
+Proof.
+  induction l as [|x l IH]; [reflexivity|]. cbn [TermList.scan].
+  destruct (pred x); cbn [fst snd app]; [reflexivity|]. rewrite IH. reflexivity.
+Qed.
+
+(** insert(): either the term went in somewhere, or the set is  b ++ blocker :: a *)
+Lemma set_insert_res_shape t l :
+  match set_insert_res P C comp t l with
+  | Inserted l' => exists B A, l = B ++ A /\ l' = B ++ t :: A
+  | Blocked b e a => l = b ++ e :: a
+  end.
+Proof.
+  unfold set_insert_res.
+  pose proof (scan_app_eq (fun x => comp (pole P C t) (pole P C x)) l) as E.
+  destruct (scan (fun x => comp (pole P C t) (pole P C x)) l) as [B A]. cbn [fst snd] in *.
+  destruct (rev B) as [|j rb] eqn:R.
+  - exists [], l. split; reflexivity.
+  - assert (EB : B = rev rb ++ [j]) by (rewrite <- (rev_involutive B), R; reflexivity).
+    destruct (comp (pole P C j) (pole P C t)).
+    + exists B, A. split; [symmetry; exact E|reflexivity].
+    + rewrite <- E, EB, <- app_assoc. reflexivity.
+Qed.
+
+Lemma set_insert_res_nil t : set_insert_res P C comp t [] = Inserted [t].
+Proof. reflexivity. Qed.
+
+(** every retry removes one stored term: with [length l <= fuel] the loop ends by an insertion or by the negligibility test *)
+Lemma add_term_loop_fuel : forall fuel sum l, length l <= fuel ->
+  snd (snd (add_term_loop P C comp negl cadd fuel sum l)) <> FinFuel.
+Proof.
+  induction fuel as [|f IH]; intros sum l Hl.
+  - destruct l; [|cbn [length] in Hl; lia]. cbn. discriminate.
+  - cbn [add_term_loop]. pose proof (set_insert_res_shape sum l) as Sh.
+    destruct (set_insert_res P C comp sum l) as [l'|b e a]; [cbn; discriminate|].
+    destruct (negl _ _); [cbn; discriminate|]. cbn [fst snd]. apply IH.
+    subst l. rewrite !app_length in *. cbn [length] in Hl. lia.
+Qed.
+
+Theorem add_term_fuel_suffices t l :
+  match snd (add_term P C comp negl cadd t l) with EvChain _ fin => fin <> FinFuel end.
+Proof. unfold add_term. cbn [snd]. apply add_term_loop_fuel. apply Nat.le_refl. Qed.
+
+(** the steps of a chain: every reduced term is  blocker += running sum  (pole of the blocker, residues added) *)
+Fixpoint chain_ok (cur : term P C) (steps : list (term P C * term P C)) : Prop :=
+  match steps with
+  | [] => True
+  | (e, red) :: r => red = (pole P C e, cadd (residue P C e) (residue P C cur)) /\ chain_ok red r
+  end.
+Lemma add_term_loop_chain_ok : forall fuel sum l, chain_ok sum (fst (snd (add_term_loop P C comp negl cadd fuel sum l))).
+Proof.
+  induction fuel as [|f IH]; intros sum l; cbn [add_term_loop];
+    destruct (set_insert_res P C comp sum l) as [l'|b e a]; try exact I;
+    destruct (negl _ _); cbn [fst snd chain_ok]; try (split; [reflexivity|exact I]).
+  split; [reflexivity|apply IH].
+Qed.
+Theorem add_term_chain_ok t l :
+  match snd (add_term P C comp negl cadd t l) with EvChain steps _ => chain_ok t steps end.
+Proof. unfold add_term. cbn [snd]. apply add_term_loop_chain_ok. Qed.
+End Basic.
 
 (** * A. error identity *)
 Section EvalRing.
@@ -51,58 +123,64 @@ Proof.
   - rewrite !eval_cons, IH. ring.
 Qed.
 
-Lemma scan_app_eq pred (l : list (term P C)) : fst (scan pred l) ++ snd (scan pred l) = l.
-Proof.
-  induction l as [|x l IH]; [reflexivity|]. cbn [TermList.scan].
-  destruct (pred x); cbn [fst snd app]; [reflexivity|]. rewrite IH. reflexivity.
-Qed.
-
 Lemma set_insert_eval t l :
   ev (fst (set_insert P C comp t l)) = ev l + (if snd (set_insert P C comp t l) then f t else 0).
 Proof.
-  unfold set_insert.
-  pose proof (scan_app_eq (fun x => comp (pole P C t) (pole P C x)) l) as E.
-  destruct (scan (fun x => comp (pole P C t) (pole P C x)) l) as [b a]. cbn [fst snd] in *.
-  destruct (rev b) as [|j r].
-  - cbn [fst snd]. rewrite eval_cons. ring.
-  - destruct (comp (pole P C j) (pole P C t)); cbn [fst snd].
-    + rewrite <- E, !eval_app, eval_cons. ring.
-    + ring.
+  unfold set_insert. pose proof (set_insert_res_shape P C comp t l) as Sh.
+  destruct (set_insert_res P C comp t l) as [l'|b e a]; cbn [fst snd].
+  - destruct Sh as [B [A [-> ->]]]. rewrite !eval_app, eval_cons. ring.
+  - ring.
 Qed.
 
 Lemma set_erase_eval k l :
   ev (fst (set_erase P C comp k l)) + ev (snd (set_erase P C comp k l)) = ev l.
 Proof.
   unfold set_erase.
-  pose proof (scan_app_eq (fun x => negb (comp (pole P C x) k)) l) as E1.
+  pose proof (scan_app_eq P C (fun x => negb (comp (pole P C x) k)) l) as E1.
   destruct (scan (fun x => negb (comp (pole P C x) k)) l) as [b a]. cbn [fst snd] in *.
-  pose proof (scan_app_eq (fun x => comp k (pole P C x)) a) as E2.
+  pose proof (scan_app_eq P C (fun x => comp k (pole P C x)) a) as E2.
   destruct (scan (fun x => comp k (pole P C x)) a) as [er a']. cbn [fst snd] in *.
   rewrite <- E1, <- E2, !eval_app. ring.
 Qed.
 
+(** what the evaluated sum gains beyond [f cur] when the running sum [cur] goes through the chain [steps]:
+    every step replaces the erased term and the running sum by the reduced term; a reduced term that is dropped is lost *)
+Fixpoint chain_err (cur : term P C) (steps : list (term P C * term P C)) (fin : final) : K :=
+  match steps with
+  | [] => match fin with FinInserted => 0 | _ => 0 - f cur end
+  | (e, red) :: r => (f red - f e - f cur) + chain_err red r fin
+  end.
+
 (** what the evaluated sum gains beyond [f t] when [t] is added *)
 Definition ev_err (e : event P C) (t : term P C) : K :=
-  match e with
-  | EvNew => 0
-  | EvRefused => 0 - f t
-  | EvMerged er sum ins => (if ins then f sum else 0) - ev er - f t
-  | EvNegligible er sum => 0 - ev er - f t
-  end.
+  match e with EvChain steps fin => chain_err t steps fin end.
+
+Lemma add_term_loop_eval : forall fuel sum l,
+  ev (fst (add_term_loop P C comp negl cadd fuel sum l)) =
+  ev l + f sum + chain_err sum (fst (snd (add_term_loop P C comp negl cadd fuel sum l)))
+                               (snd (snd (add_term_loop P C comp negl cadd fuel sum l))).
+Proof.
+  induction fuel as [|n IH]; intros sum l; cbn [add_term_loop];
+    pose proof (set_insert_res_shape P C comp sum l) as Sh;
+    destruct (set_insert_res P C comp sum l) as [l'|b e a].
+  - destruct Sh as [B [A [-> ->]]]. cbn [fst snd chain_err]. rewrite !eval_app, eval_cons. ring.
+  - subst l. destruct (negl _ _); cbn [fst snd chain_err]; rewrite !eval_app, eval_cons; ring.
+  - destruct Sh as [B [A [-> ->]]]. cbn [fst snd chain_err]. rewrite !eval_app, eval_cons. ring.
+  - subst l. destruct (negl _ _); cbn [fst snd chain_err].
+    + rewrite !eval_app, eval_cons. ring.
+    + rewrite IH. rewrite !eval_app, eval_cons. ring.
+Qed.
 
 Theorem add_term_eval t l :
   ev (fst (add_term P C comp negl cadd t l)) = ev l + f t + ev_err (snd (add_term P C comp negl cadd t l)) t.
-Proof.
-  unfold add_term. destruct (set_find P C comp (pole P C t) l) as [x|].
-  - pose proof (set_erase_eval (pole P C x) l) as E.
-    destruct (set_erase P C comp (pole P C x) l) as [l' er]. cbn [fst snd] in *.
-    destruct (negl _ _); cbn [fst snd ev_err].
-    + rewrite <- E. ring.
-    + rewrite set_insert_eval. rewrite <- E.
-      destruct (snd (set_insert P C comp _ l')); ring.
-  - cbn [fst snd]. rewrite set_insert_eval.
-    destruct (snd (set_insert P C comp t l)); cbn [ev_err]; ring.
-Qed.
+Proof. unfold add_term. cbn [fst snd ev_err]. apply add_term_loop_eval. Qed.
+
+(** one step of a chain and the two ends, spelled out *)
+Lemma ev_err_new t : ev_err (EvChain [] FinInserted) t = 0.
+Proof. reflexivity. Qed.
+Lemma ev_err_step e red r fin t :
+  ev_err (EvChain ((e, red) :: r) fin) t = (f red - f e - f t) + ev_err (EvChain r fin) red.
+Proof. reflexivity. Qed.
 
 Fixpoint sum_err (es : list (event P C)) (ts : list (term P C)) : K :=
   match es, ts with
@@ -207,16 +285,69 @@ Proof.
     rewrite IH; [reflexivity| |exact HA]. intros z Hz. apply HB. right. exact Hz.
 Qed.
 
-Lemma insert_at t B A : all_lt B (pole t) -> all_gt (pole t) A ->
-  set_insert P C comp t (B ++ A) = (B ++ t :: A, true).
+Lemma insert_res_at t B A : all_lt B (pole t) -> all_gt (pole t) A ->
+  set_insert_res P C comp t (B ++ A) = Inserted (B ++ t :: A).
 Proof.
-  intros HB HA. unfold set_insert. rewrite (scan_at _ B A).
+  intros HB HA. unfold set_insert_res. rewrite (scan_at _ B A).
   - cbn [fst snd]. destruct (rev B) as [|j r] eqn:R.
     + assert (B = []) by (rewrite <- (rev_involutive B), R; reflexivity). subst B. reflexivity.
     + assert (Hj : In j B) by (apply in_rev; rewrite R; left; reflexivity).
       rewrite (HB j Hj). reflexivity.
   - intros x Hx. apply comp_asym. apply HB. exact Hx.
   - destruct A as [|y A]; [exact I|]. cbn [head_true]. apply HA. left. reflexivity.
+Qed.
+
+Lemma insert_at t B A : all_lt B (pole t) -> all_gt (pole t) A ->
+  set_insert P C comp t (B ++ A) = (B ++ t :: A, true).
+Proof. intros HB HA. unfold set_insert. rewrite (insert_res_at t B A HB HA). reflexivity. Qed.
+
+(** the insertion of t is refused by x, the LAST stored term that is not greater than t, when x is not less than t either *)
+Lemma insert_res_blocked_at x t B A : sorted_sep (B ++ x :: A) ->
+  comp (pole x) (pole t) = false -> comp (pole t) (pole x) = false -> all_gt (pole t) A ->
+  set_insert_res P C comp t (B ++ x :: A) = Blocked B x A.
+Proof.
+  intros Hs H1 H2 HA. destruct (sorted_sep_app_inv _ _ Hs) as [_ [_ Hc]].
+  unfold set_insert_res. change (B ++ x :: A) with (B ++ [x] ++ A). rewrite app_assoc. rewrite (scan_at _ (B ++ [x]) A).
+  - cbn [fst snd]. rewrite rev_app_distr. cbn [rev app]. rewrite H1, rev_involutive. reflexivity.
+  - intros y Hy. apply in_app_or in Hy. destruct Hy as [Hy|[<-|[]]]; [|exact H2].
+    destruct (comp (pole t) (pole y)) eqn:E; [|reflexivity].
+    rewrite <- H2. symmetry. apply (comp_trans _ (pole y)); [exact E|apply Hc; [exact Hy|left; reflexivity]].
+  - destruct A as [|y A']; [exact I|]. cbn [head_true]. apply HA. left. reflexivity.
+Qed.
+
+(** the complete description of insert() on a sequence satisfying the invariant *)
+Lemma insert_res_split t l : sorted_sep l ->
+  (exists B A, l = B ++ A /\ all_lt B (pole t) /\ all_gt (pole t) A /\
+               set_insert_res P C comp t l = Inserted (B ++ t :: A)) \/
+  (exists x B A, l = B ++ x :: A /\ comp (pole x) (pole t) = false /\ comp (pole t) (pole x) = false /\
+                 all_gt (pole t) A /\ set_insert_res P C comp t l = Blocked B x A).
+Proof.
+  intros Hs.
+  destruct (scan_spec (fun x => comp (pole t) (pole x)) l) as [E [HB HA]].
+  destruct (scan (fun x => comp (pole t) (pole x)) l) as [B0 A0]. cbn [fst snd] in *.
+  assert (HsBA : sorted_sep (B0 ++ A0)) by (rewrite <- E; exact Hs).
+  destruct (sorted_sep_app_inv _ _ HsBA) as [HsB [HsA Hc]].
+  assert (HgA : all_gt (pole t) A0).
+  { destruct A0 as [|y A']; [intros z []|]. cbn [head_true] in HA.
+    destruct (sorted_sep_cons_inv _ _ HsA) as [_ Hg].
+    intros z [<-|Hz]; [exact HA|]. apply (comp_trans _ (pole y)); [exact HA|apply Hg; exact Hz]. }
+  destruct (rev B0) as [|j rb] eqn:R.
+  - assert (B0 = []) by (rewrite <- (rev_involutive B0), R; reflexivity). subst B0. cbn [app] in E.
+    left. exists [], A0. split; [exact E|]. split; [intros z []|]. split; [exact HgA|].
+    rewrite E. exact (insert_res_at t [] A0 (fun z (H : In z []) => match H with end) HgA).
+  - assert (EB : B0 = rev rb ++ [j]) by (rewrite <- (rev_involutive B0), R; reflexivity).
+    assert (Hj : In j B0) by (rewrite EB; apply in_or_app; right; left; reflexivity).
+    destruct (comp (pole j) (pole t)) eqn:Ej.
+    + left. exists B0, A0. split; [exact E|].
+      assert (HlB : all_lt B0 (pole t)).
+      { intros z Hz. rewrite EB in Hz. apply in_app_or in Hz. destruct Hz as [Hz|[<-|[]]]; [|exact Ej].
+        rewrite EB in HsB. destruct (sorted_sep_app_inv _ _ HsB) as [_ [_ Hc']].
+        apply (comp_trans _ (pole j)); [apply Hc'; [exact Hz|left; reflexivity]|exact Ej]. }
+      split; [exact HlB|]. split; [exact HgA|]. rewrite E. apply insert_res_at; assumption.
+    + right. exists j, (rev rb), A0.
+      assert (El : l = rev rb ++ j :: A0) by (rewrite E, EB, <- app_assoc; reflexivity).
+      split; [exact El|]. split; [exact Ej|]. split; [apply HB; exact Hj|]. split; [exact HgA|].
+      rewrite El. apply insert_res_blocked_at; [rewrite <- El; exact Hs|exact Ej|apply HB; exact Hj|exact HgA].
 Qed.
 
 Lemma find_split k l : sorted_sep l ->
@@ -256,37 +387,38 @@ Proof.
   - cbn [head_true]. rewrite comp_irrefl. reflexivity.
 Qed.
 
-(** the complete description of add_term on a sequence satisfying the invariant *)
+(** the complete description of add_term on a sequence satisfying the invariant: at most one merge *)
 Theorem add_term_spec t l : sorted_sep l ->
-  (set_find P C comp (pole t) l = None /\
-   exists B A, l = B ++ A /\ all_lt B (pole t) /\ all_gt (pole t) A /\
-               add_term P C comp negl cadd t l = (B ++ t :: A, EvNew)) \/
-  (exists x B A, set_find P C comp (pole t) l = Some x /\ l = B ++ x :: A /\
-     comp (pole x) (pole t) = false /\ comp (pole t) (pole x) = false /\
+  (exists B A, l = B ++ A /\ all_lt B (pole t) /\ all_gt (pole t) A /\
+               add_term P C comp negl cadd t l = (B ++ t :: A, EvChain [] FinInserted)) \/
+  (exists x B A, l = B ++ x :: A /\
+     comp (pole x) (pole t) = false /\ comp (pole t) (pole x) = false /\ all_gt (pole t) A /\
      let sum : term := (pole x, cadd (residue x) (residue t)) in
      add_term P C comp negl cadd t l =
-       if negl (residue sum) (S (length (B ++ A))) then (B ++ A, EvNegligible [x] sum)
-       else (B ++ sum :: A, EvMerged [x] sum true)).
+       if negl (residue sum) (length (B ++ A) + 1) then (B ++ A, EvChain [(x, sum)] FinNegligible)
+       else (B ++ sum :: A, EvChain [(x, sum)] FinInserted)).
 Proof.
-  intros Hs. pose proof (find_split (pole t) l Hs) as F. unfold add_term.
-  destruct (set_find P C comp (pole t) l) as [x|].
-  - right. destruct F as [B [A [E [HB [H1 H2]]]]]. exists x, B, A.
-    split; [reflexivity|]. split; [exact E|]. split; [exact H1|]. split; [exact H2|].
-    cbv zeta. subst l. rewrite (erase_at x B A Hs). cbn [fst snd].
+  intros Hs. destruct (insert_res_split t l Hs) as [[B [A [E [HB [HA R]]]]]|[x [B [A [E [H1 [H2 [HA R]]]]]]]].
+  - left. exists B, A. split; [exact E|]. split; [exact HB|]. split; [exact HA|].
+    unfold add_term. destruct (length l); cbn [add_term_loop]; rewrite R; reflexivity.
+  - right. exists x, B, A. split; [exact E|]. split; [exact H1|]. split; [exact H2|]. split; [exact HA|].
+    cbv zeta. unfold add_term.
+    assert (L : length l = S (length (B ++ A))) by (rewrite E, !app_length; cbn [length]; lia).
+    rewrite L. cbn [add_term_loop]. rewrite R.
     destruct (negl _ _); [reflexivity|].
-    destruct (sorted_sep_app_inv _ _ Hs) as [_ [HsA Hc]].
+    rewrite E in Hs. destruct (sorted_sep_app_inv _ _ Hs) as [_ [HsA Hc]].
     destruct (sorted_sep_cons_inv _ _ HsA) as [_ Hg].
-    rewrite insert_at; [reflexivity| |].
-    + intros z Hz. cbn [TermList.pole fst]. apply Hc; [exact Hz|left; reflexivity].
-    + intros z Hz. cbn [TermList.pole fst]. apply Hg. exact Hz.
-  - left. split; [reflexivity|]. destruct F as [B [A [E [HB HA]]]]. exists B, A.
-    split; [exact E|]. split; [exact HB|]. split; [exact HA|].
-    subst l. rewrite insert_at by assumption. reflexivity.
+    assert (R2 : set_insert_res P C comp (pole x, cadd (residue x) (residue t)) (B ++ A) =
+                 Inserted (B ++ (pole x, cadd (residue x) (residue t)) :: A)).
+    { apply insert_res_at.
+      - intros z Hz. cbn [TermList.pole fst]. apply Hc; [exact Hz|left; reflexivity].
+      - intros z Hz. cbn [TermList.pole fst]. apply Hg. exact Hz. }
+    destruct (length (B ++ A)); cbn [add_term_loop]; rewrite R2; reflexivity.
 Qed.
 
 Theorem add_term_sorted t l : sorted_sep l -> sorted_sep (fst (add_term P C comp negl cadd t l)).
 Proof.
-  intros Hs. destruct (add_term_spec t l Hs) as [[_ [B [A [E [HB [HA R]]]]]]|[x [B [A [_ [E [H1 [H2 R]]]]]]]].
+  intros Hs. destruct (add_term_spec t l Hs) as [[B [A [E [HB [HA R]]]]]|[x [B [A [E [H1 [H2 [_ R]]]]]]]].
   - rewrite R. cbn [fst]. subst l. destruct (sorted_sep_app_inv _ _ Hs) as [HsB [HsA Hc]].
     apply sorted_sep_app; [exact HsB|apply sorted_sep_cons; assumption|].
     intros x y Hx [<-|Hy]; [apply HB; exact Hx|apply Hc; assumption].
@@ -298,17 +430,15 @@ Proof.
       intros y z Hy [<-|Hz]; [change (comp (pole y) (pole x) = true); apply Hc; [exact Hy|left; reflexivity]|apply Hc; [exact Hy|right; exact Hz]].
 Qed.
 
-(** insert() is never refused *)
+(** no term is ever lost silently (the loop is never cut short), and a chain has at most one merge *)
 Theorem add_term_never_refused t l : sorted_sep l ->
   match snd (add_term P C comp negl cadd t l) with
-  | EvRefused => False
-  | EvMerged _ _ ins => ins = true
-  | _ => True
+  | EvChain steps fin => fin <> FinFuel /\ length steps <= 1
   end.
 Proof.
-  intros Hs. destruct (add_term_spec t l Hs) as [[_ [B [A [_ [_ [_ R]]]]]]|[x [B [A [_ [_ [_ [_ R]]]]]]]].
-  - rewrite R. exact I.
-  - cbv zeta in R. rewrite R. destruct (negl _ _); cbn [snd]; [exact I|reflexivity].
+  intros Hs. destruct (add_term_spec t l Hs) as [[B [A [_ [_ [_ R]]]]]|[x [B [A [_ [_ [_ [_ R]]]]]]]].
+  - rewrite R. cbn [snd length]. split; [discriminate|lia].
+  - cbv zeta in R. rewrite R. destruct (negl _ _); cbn [snd length]; (split; [discriminate|lia]).
 Qed.
 
 Theorem add_terms_sorted ts : forall l, sorted_sep l -> sorted_sep (fst (add_terms P C comp negl cadd ts l)).
@@ -317,13 +447,24 @@ Proof.
   apply IH. apply add_term_sorted. exact Hs.
 Qed.
 
-(** the C++ assertion `assert(Terms.check_terms())` on the ordering part *)
+Theorem add_terms_events_short ts : forall l, sorted_sep l ->
+  Forall (fun e => match e with EvChain steps fin => fin <> FinFuel /\ length steps <= 1 end)
+         (snd (add_terms P C comp negl cadd ts l)).
+Proof.
+  induction ts as [|t ts IH]; intros l Hs; cbn [add_terms snd]; [constructor|].
+  constructor; [apply add_term_never_refused; exact Hs|]. apply IH. apply add_term_sorted. exact Hs.
+Qed.
+
+(** the C++ assertion `assert(Terms.check_terms())` *)
 Lemma sorted_sep_check l : sorted_sep l -> check_sorted P C comp l = true.
 Proof.
   induction l as [|a [|b r] IH]; intros H; try reflexivity.
   cbn [TermList.sorted_sep] in H. destruct H as [H1 H2].
   cbn [check_sorted]. rewrite H1. cbn [andb]. apply IH. exact H2.
 Qed.
+Corollary add_terms_check_terms ts l : sorted_sep l ->
+  check_terms P C comp (fst (add_terms P C comp negl cadd ts l)) = true.
+Proof. intros Hs. unfold check_terms. apply sorted_sep_check. apply add_terms_sorted. exact Hs. Qed.
 
 (** ** with values in a ring: merging terms with EQUAL poles preserves the evaluated sum *)
 Section Preserved.
@@ -341,11 +482,25 @@ Theorem termlist_eval_preserved t l :
              pole x = pole t /\ negl (cadd (residue x) (residue t)) (length l) = false) ->
   ev (fst (add_term P C comp negl cadd t l)) = kadd (ev l) (f t).
 Proof.
-  intros Hs Hx. destruct (add_term_spec t l Hs) as [[_ [B [A [E [_ [_ R]]]]]]|[x [B [A [F [E [_ [_ R]]]]]]]].
+  intros Hs Hx. destruct (add_term_spec t l Hs) as [[B [A [E [_ [_ R]]]]]|[x [B [A [E [H1 [H2 [HA R]]]]]]]].
   - rewrite R. cbn [fst]. subst l.
     rewrite !(eval_app P C K k0 k1 kadd kmul ksub kopp Kr f), (eval_cons P C K k0 k1 kadd kmul ksub kopp Kr f). ring.
-  - destruct (Hx x F) as [Hp Hn]. cbv zeta in R. rewrite R.
-    assert (L : S (length (B ++ A)) = length l).
+  - (* the blocking term x is the term find() returns: the hypothesis makes the like term unique *)
+    assert (Fx : set_find P C comp (pole t) l = Some x).
+    { pose proof (find_split (pole t) l Hs) as F.
+      assert (Inx : In x l) by (rewrite E; apply in_or_app; right; left; reflexivity).
+      destruct (set_find P C comp (pole t) l) as [y|] eqn:Ef.
+      - destruct F as [B' [A' [E' [HB' [Hy1 Hy2]]]]]. destruct (Hx y eq_refl) as [Hp _].
+        rewrite E' in Inx. apply in_app_or in Inx. destruct Inx as [Inx|[Inx|Inx]].
+        + rewrite (HB' x Inx) in H1. discriminate H1.
+        + rewrite Inx. reflexivity.
+        + rewrite E' in Hs. destruct (sorted_sep_app_inv _ _ Hs) as [_ [HsA' _]].
+          destruct (sorted_sep_cons_inv _ _ HsA') as [_ Hg]. pose proof (Hg x Inx) as X. rewrite Hp, H2 in X. discriminate X.
+      - destruct F as [B' [A' [E' [HB' HA']]]]. rewrite E' in Inx. apply in_app_or in Inx. destruct Inx as [Inx|Inx].
+        + rewrite (HB' x Inx) in H1. discriminate H1.
+        + rewrite (HA' x Inx) in H2. discriminate H2. }
+    destruct (Hx x Fx) as [Hp Hn]. cbv zeta in R. rewrite R.
+    assert (L : length (B ++ A) + 1 = length l).
     { subst l. rewrite !app_length. cbn [length]. lia. }
     cbn [TermList.residue snd] in R |- *. rewrite L, Hn. cbn [fst]. subst l.
     rewrite !(eval_app P C K k0 k1 kadd kmul ksub kopp Kr f), !(eval_cons P C K k0 k1 kadd kmul ksub kopp Kr f).
@@ -371,18 +526,24 @@ Proof.
   cbn [head_true] in H. apply negb_true_iff in H. rewrite (comp_total _ _ H). reflexivity.
 Qed.
 
-Lemma insert_total t l : snd (set_insert P C comp t l) = true.
+Lemma insert_res_total t l : exists l', set_insert_res P C comp t l = Inserted l'.
 Proof.
-  unfold set_insert.
+  unfold set_insert_res.
   destruct (scan_spec P C (fun x => comp (pole P C t) (pole P C x)) l) as [_ [H _]].
   destruct (scan P C (fun x => comp (pole P C t) (pole P C x)) l) as [B A]. cbn [fst snd] in *.
-  destruct (rev B) as [|j r] eqn:R; [reflexivity|].
+  destruct (rev B) as [|j r] eqn:R; [eexists; reflexivity|].
   assert (Hj : In j B) by (apply in_rev; rewrite R; left; reflexivity).
-  rewrite (comp_total _ _ (H j Hj)). reflexivity.
+  rewrite (comp_total _ _ (H j Hj)). eexists; reflexivity.
 Qed.
 
-Theorem add_term_total t l : snd (add_term P C comp negl cadd t l) = EvNew.
-Proof. unfold add_term. rewrite find_none_total. cbn [snd]. rewrite insert_total. reflexivity. Qed.
+Lemma insert_total t l : snd (set_insert P C comp t l) = true.
+Proof. unfold set_insert. destruct (insert_res_total t l) as [l' ->]. reflexivity. Qed.
+
+Theorem add_term_total t l : snd (add_term P C comp negl cadd t l) = EvChain [] FinInserted.
+Proof.
+  unfold add_term. destruct (insert_res_total t l) as [l' E].
+  destruct (length l); cbn [add_term_loop]; rewrite E; reflexivity.
+Qed.
 
 Section ExactEval.
 Variable K : Type.
@@ -398,7 +559,7 @@ Proof.
   induction ts as [|t ts IH]; intros l; cbn [add_terms fst].
   - rewrite (eval_nil P C K k0 kadd f). ring.
   - rewrite IH, (add_term_eval P C comp negl cadd K k0 k1 kadd kmul ksub kopp Kr f), add_term_total.
-    cbn [ev_err]. rewrite (eval_cons P C K k0 k1 kadd kmul ksub kopp Kr f). ring.
+    cbn [ev_err chain_err]. rewrite (eval_cons P C K k0 k1 kadd kmul ksub kopp Kr f). ring.
 Qed.
 End ExactEval.
 End Total.
@@ -506,6 +667,25 @@ Proof.
   unfold set_find. destruct (snd (scan P C _ (inorder t))); reflexivity.
 Qed.
 End Tree.
+
+(** Examples over nat (comparator p2 >= p1 + 10, a strict partial order; residues added):
+    - a new pole like TWO stored ones (0 and 15 stored, 8 added): insert() is refused by the UPPER neighbour, which takes the sum;
+    - on a sequence that does NOT satisfy the invariant (0 and 5 stored: never produced from the empty set) the chain has two
+      steps, and the events record both. *)
+Definition ncomp10 (x y : nat) : bool := x + 10 <=? y.
+Example ex_blocked_by_upper :
+  set_insert_res nat nat ncomp10 (8, 1) [(0, 1); (15, 1)] = Blocked [(0, 1)] (15, 1) [] /\
+  add_term nat nat ncomp10 (fun _ _ => false) Nat.add (8, 1) [(0, 1); (15, 1)] =
+    ([(0, 1); (15, 2)], EvChain [((15, 1), (15, 2))] FinInserted).
+Proof. split; reflexivity. Qed.
+Example ex_chain_two_steps :
+  add_term nat nat ncomp10 (fun _ _ => false) Nat.add (3, 1) [(0, 1); (5, 1)] =
+    ([(0, 3)], EvChain [((5, 1), (5, 2)); ((0, 1), (0, 3))] FinInserted).
+Proof. reflexivity. Qed.
+Example ex_chain_dropped :
+  add_term nat nat ncomp10 (fun r n => r * n <=? 4) Nat.add (3, 1) [(0, 1); (40, 7)] =
+    ([(40, 7)], EvChain [((0, 1), (0, 2))] FinNegligible).
+Proof. reflexivity. Qed.
 
 (** * D. the real numbers: compare(p1, p2) = (p2 - p1 >= tol) *)
 Require Import Reals Lra.
